@@ -118,7 +118,11 @@ type propInfo struct {
 	numeric string   // "", "slen", "ulen", "bw", "spacing", "gap", "fs", "fw", "lh", "tab"
 }
 
+// a value no validator accepts (checked at start-up per property)
+const invalidValue = "c04-bad 7 ?"
+
 type universe struct {
+	invalidOK map[pr.KnownProp]bool // invalidValue is rejected for the property; not text-decoration-* / page
 	props    []propInfo // index = KnownProp (0 unused)
 	fnNames  [pr.NbProperties]string
 	rejected []string
@@ -135,7 +139,7 @@ func validate1(name, txt string) pr.DeclaredValue {
 }
 
 func newUniverse() *universe {
-	u := &universe{fnNames: tree.VerifC04ComputerNames()}
+	u := &universe{fnNames: tree.VerifC04ComputerNames(), invalidOK: map[pr.KnownProp]bool{}}
 	u.props = make([]propInfo, pr.NbProperties)
 	num := map[string]string{"font-size": "fs", "font-weight": "fw", "line-height": "lh", "tab-size": "tab"}
 	for _, n := range lengthPropsSigned {
@@ -166,6 +170,10 @@ func newUniverse() *universe {
 			u.rejected = append(u.rejected, pi.name+" (no explicit sample)")
 		}
 		u.props[p] = pi
+		// only real longhands (font-variant is also a shorthand: a pending var() expands to its longhands)
+		if (len(pi.samples) > 0 || pi.numeric != "") && validate1(pi.name, invalidValue) == nil && !p.IsTextDecoration() && p != pr.PPage {
+			u.invalidOK[p] = true
+		}
 	}
 	return u
 }
@@ -355,6 +363,14 @@ func (u *universe) genDecls(r *rng.R, q int, root bool) string {
 			v = "initial"
 		default:
 			v = u.genExplicit(r, pi)
+			switch {
+			case r.P(1, 10) && u.invalidOK[p]:
+				// var() whose substitution does not validate: "invalid at computed-value time" = the
+				// property behaves as if no declaration had won (inherited value / initial value)
+				v = "var(--c04u, " + invalidValue + ")"
+			case r.P(1, 10) && u.invalidOK[p] && v != "initial" && v != "inherit":
+				v = "var(--c04u, " + v + ")" // valid once substituted
+			}
 		}
 		parts = append(parts, pi.name+": "+v)
 	}
@@ -499,9 +515,35 @@ func (u *universe) genDoc(r *rng.R, fonts bool) *doc {
 		if strings.Trim(txt, "; ") == "" {
 			continue
 		}
+		// the var() declarations (last one per property wins, as in the cascade of one origin)
+		fallback := map[string]string{}
+		for _, seg := range strings.Split(txt, "; ") {
+			if i := strings.Index(seg, ": "); i > 0 {
+				name, val := strings.TrimSpace(seg[:i]), seg[i+2:]
+				if strings.HasPrefix(val, "var(--c04u, ") && strings.HasSuffix(val, ")") {
+					fallback[name] = val[len("var(--c04u, ") : len(val)-1]
+				} else if validate1(name, val) != nil { // a declaration dropped by the validator overrides nothing
+					delete(fallback, name)
+				}
+			}
+		}
 		for _, dc := range validation.PreprocessDeclarations("", pa.ParseBlocksContentsString(txt)) {
 			if dc.Name.KnownProp == 0 {
 				continue
+			}
+			if _, pending := dc.Value.(pr.RawTokens); pending {
+				fb, ok := fallback[dc.Name.KnownProp.String()]
+				var v pr.DeclaredValue
+				if ok {
+					v = validate1(dc.Name.KnownProp.String(), fb)
+				}
+				if v == nil {
+					// invalid at computed-value time: as if there were no declaration
+					delete(n.decls, dc.Name.KnownProp)
+					n.states[dc.Name.KnownProp] = "invalid-var"
+					continue
+				}
+				dc.Value = v
 			}
 			n.decls[dc.Name.KnownProp] = dc.Value
 			switch dc.Value {
@@ -817,6 +859,9 @@ func Replay(path string, modelPath, repo string, out *res.Result) error {
 	directedShared(out)
 	directedFontRelativeTuples(out)
 	directedRem(out)
+	if err := directedDisplay(m, out); err != nil {
+		return err
+	}
 	fonts, err := render.NewFonts(repo)
 	if err != nil {
 		return err
@@ -926,6 +971,9 @@ func Run(tier string, seed uint64, modelPath, repo string, out *res.Result) erro
 	directedShared(out)
 	directedFontRelativeTuples(out)
 	directedRem(out)
+	if err := directedDisplay(m, out); err != nil {
+		return err
+	}
 
 	fonts, err := render.NewFonts(repo)
 	if err != nil {
@@ -1747,6 +1795,83 @@ func (u *universe) lengthsPass(m *mp.Model, d *doc, valA [][]pr.CssProperty, exs
 			}
 			out.Add(res.Finding{Kind: kind, Op: kind + ":lengths", Input: input(it.n, it.p), Impl: real.String(), Model: model.String(), Reason: why,
 				Key: it.p.String(), Seed: caseSeed})
+		}
+	}
+	return nil
+}
+
+// directedDisplay: the computed `display` of the root element, of floats, of absolutely positioned
+// and of ordinary elements, for every display value, against the §9.7 table of the spec
+// (WR.C04.specDisplay).  Author rules override the user-agent sheet (html, body, div are display:block there).
+func directedDisplay(m *mp.Model, out *res.Result) error {
+	values := []string{"none", "inline", "block", "inline-block", "list-item", "inline list-item", "flow-root", "table", "inline-table",
+		"flex", "inline-flex", "grid", "inline-grid", "table-caption", "table-row-group", "table-cell", "table-header-group",
+		"table-footer-group", "table-row", "table-column-group", "table-column", "initial", "block flow", "inline flow-root", "inline flow-root list-item"}
+	contexts := []struct {
+		name, rule string
+		blockify   bool
+		root       bool
+	}{
+		{"root", "", true, true},
+		{"float", "float: left", true, false}, {"float-right", "float: right", true, false},
+		{"absolute", "position: absolute", true, false}, {"fixed", "position: fixed", true, false},
+		{"float+absolute", "float: left; position: absolute", true, false},
+		{"relative", "position: relative", false, false}, {"plain", "", false, false},
+	}
+	for _, ctx := range contexts {
+		for _, v := range values {
+			var src string
+			if ctx.root {
+				src = fmt.Sprintf(`<html id="x"><head><style>html { display: %s }</style></head><body>t</body></html>`, v)
+			} else {
+				src = fmt.Sprintf(`<html><head><style>#x { display: %s; %s }</style></head><body><div id="x">t</div></body></html>`, v, ctx.rule)
+			}
+			var real, decl pr.Display
+			ok := false
+			oc := render.Guard(30*time.Second, func() {
+				h, err := tree.NewHTML(utils.InputString(src), "", nil, "")
+				if err != nil {
+					return
+				}
+				sf := tree.GetAllComputedStyles(h, nil, false, nil, nil, nil, nil, false, nil)
+				it := h.Root.Iter()
+				for it.HasNext() {
+					e := it.Next()
+					if e.Get("id") == "x" {
+						real, ok = tree.VerifC04RawStyle(sf, e, "").Get(pr.PDisplay.Key()).(pr.Display)
+					}
+				}
+			})
+			if !oc.OK() || !ok {
+				out.Add(res.Finding{Kind: "crash", Op: "crash:directed-display", Input: src, Reason: oc.Panic, Key: oc.Site})
+				continue
+			}
+			if v == "initial" {
+				decl = pr.InitialValues[pr.PDisplay].(pr.Display)
+			} else if d, isD := validate1("display", v).(pr.Display); isD {
+				decl = d
+			} else {
+				continue
+			}
+			ans, err := m.Ask(sx.L(sx.A("display"), sx.B(ctx.blockify), sx.S(decl[0]), sx.S(decl[1]), sx.S(decl[2])))
+			if err != nil {
+				return err
+			}
+			if ans.Head() != "ok" || len(ans.Xs) != 4 {
+				return fmt.Errorf("model rejected the display request: %s", ans)
+			}
+			want := pr.Display{ans.Xs[1].S, ans.Xs[2].S, ans.Xs[3].S}
+			out.Evaluations++
+			out.Nontrivial++
+			out.Hit("directed:display:" + ctx.name)
+			if real != want {
+				key := "display@" + ctx.name
+				if decl[0] == "inline" && decl[2] == "" && (decl[1] == "table" || decl[1] == "flex" || decl[1] == "grid") {
+					key = "inline-" + decl[1] + "-blockified"
+				}
+				out.Add(res.Finding{Kind: "judge", Op: "judge:display", Input: src, Impl: fmt.Sprintf("%q", [3]string(real)), Model: fmt.Sprintf("%q", [3]string(want)),
+					Reason: "CSS 2.1 §9.7 / Display 3 §2.7: computed display of " + ctx.name + " elements", Key: key})
+			}
 		}
 	}
 	return nil
